@@ -12,6 +12,23 @@ import json, os, re, subprocess, sys, shutil, time
 ROOT = os.path.dirname(os.path.dirname(os.path.abspath(__file__)))
 SEEDED = os.path.join(ROOT, "seeded")
 REPO = "/repo"
+
+
+def _stash_evidence():
+    """Checks rewrite evidence/<id>.json on every run; runs against a deliberately broken /repo must not
+    leave their evidence behind (committed evidence has to come from the unchanged tree)."""
+    import glob, tempfile
+    d = tempfile.mkdtemp(prefix="evidence-stash-")
+    for f in glob.glob(os.path.join(ROOT, "evidence", "C*.json")):
+        shutil.copy(f, d)
+    return d
+
+
+def _restore_evidence(d):
+    import glob
+    for f in glob.glob(os.path.join(d, "C*.json")):
+        shutil.copy(f, os.path.join(ROOT, "evidence"))
+    shutil.rmtree(d, ignore_errors=True)
 ENV = dict(os.environ, CARGO_NET_OFFLINE="true")
 
 
@@ -84,6 +101,14 @@ def confirm(wt, k, prop):
 
 
 def check(ids, thorough=False):
+    stash = _stash_evidence()
+    try:
+        _check(ids, thorough)
+    finally:
+        _restore_evidence(stash)
+
+
+def _check(ids, thorough=False):
     for d in sorted(os.listdir(SEEDED)):
         if ids and d not in ids:
             continue
